@@ -42,6 +42,16 @@ def gen(rng, tier):
         lines.append("CRASH %s %s big" % (cid, ds.did))
         cases.append((cid, ds, "big"))
         lines.append("DROP " + ds.did)
+    # bitmaps that serialise to more than 16 KiB (three roaring containers: > 131072 rows with an
+    # irregular flag) next to small ones: anything that treats large values specially
+    nbig = 140000 if tier == "quick" else 300000
+    rows = [{b"f": (b"y" if (i * 2654435761 >> 7) & 1 else b"n"), b"g": b"%d" % (i % 5)} for i in range(nbig)]
+    ds = dp.Dataset("lb", rows, "large-bitmaps")
+    lines += ds.lines()
+    for w in ("mem", "big"):
+        lines.append("CRASH clb%s lb %s" % (w, w))
+        cases.append(("clb" + w, ds, w))
+    lines.append("DROP lb")
     for i in range(6 if tier == "quick" else 300):
         ds = dp.small_dataset(rng, "s%d" % i, hostile=True)
         if any(0 in c for r in ds.rows for c in r):
@@ -64,10 +74,19 @@ def kill_stream(rep, scratch, rng, tier):
     csv = os.path.join(d, "in.csv")
     with open(csv, "w") as fh:
         fh.write("a,b,c\n")
-        for i in range(6000):
-            fh.write("v%05d,%d,x\n" % (i % 2600, i % 7))
+        for i in range(40000):
+            fh.write("v%05d,%d,x\n" % (i % 26000, i % 7))
     results = {}
     bad = []
+    # scratch files of the command on ANOTHER file system than the output (TMPDIR), if there is one
+    other_tmp = None
+    try:
+        if os.path.isdir("/dev/shm") and os.stat("/dev/shm").st_dev != os.stat(d).st_dev:
+            other_tmp = os.path.join("/dev/shm", "updog-verif-kill-%d" % os.getpid())
+            os.makedirs(other_tmp, exist_ok=True)
+    except OSError:
+        other_tmp = None
+    results["tmpdir_on_other_filesystem"] = bool(other_tmp)
     for big in (False, True):
         ref = os.path.join(d, "ref-%s.updog" % ("big" if big else "mem"))
         cmd = [updog, "create"] + (["-b"] if big else []) + ["-o", ref, csv]
@@ -76,12 +95,30 @@ def kill_stream(rep, scratch, rng, tier):
         full = time.time() - t0
         if p.returncode != 0:
             raise core.FrameworkError("updog create failed on the reference run: %s" % p.stderr.decode("utf-8", "replace")[-500:])
+        refsize = os.path.getsize(ref)
         for i in range(n):
             out = os.path.join(d, "k%d-%s.updog" % (i, "big" if big else "mem"))
+            env = dict(core.GOENV)
+            if other_tmp and i % 2 == 1:
+                env["TMPDIR"] = other_tmp
+            # even runs: a random instant; odd runs: the instant at which the OUTPUT PATH has
+            # reached a fraction of its final size (the window in which a leftover can exist)
             delay = rng.random() * full * 1.05
-            proc = subprocess.Popen([updog, "create"] + (["-b"] if big else []) + ["-o", out, csv], cwd=d, env=core.GOENV,
+            threshold = None if i % 4 in (0, 1) and i % 2 == 0 else max(1, int(refsize * rng.choice([0.0, 0.05, 0.3, 0.6, 0.9])))
+            proc = subprocess.Popen([updog, "create"] + (["-b"] if big else []) + ["-o", out, csv], cwd=d, env=env,
                                     stdout=subprocess.DEVNULL, stderr=subprocess.DEVNULL)
-            time.sleep(delay)
+            if threshold is None:
+                time.sleep(delay)
+            else:
+                tend = time.time() + full * 3 + 2
+                while time.time() < tend and proc.poll() is None:
+                    try:
+                        if os.path.getsize(out) >= threshold:
+                            break
+                    except OSError:
+                        pass
+                    time.sleep(0.00005)
+                delay = -threshold
             finished = proc.poll() is not None
             if not finished:
                 proc.send_signal(signal.SIGKILL)
@@ -94,12 +131,18 @@ def kill_stream(rep, scratch, rng, tier):
             verdicts = [l.split(" ", 2)[-1] if l.startswith("KILL ABSENT") else l.split(" ", 2)[2] for l in q.stdout.decode("utf-8", "replace").splitlines() if l.startswith("KILL")]
             if q.stdout.decode().startswith("KILL ABSENT"):
                 verdicts = ["ABSENT"]
+            if q.returncode != 0:
+                # the process that opened the leftover died (e.g. SIGBUS on pages beyond the end of the file)
+                verdicts.append("OPENER-DIED rc=%d %s" % (q.returncode, q.stderr.decode("utf-8", "replace")[:200].replace("\n", " ")))
             for v in verdicts:
                 key = v.split()[0]
                 results[key] = results.get(key, 0) + 1
                 if key not in ("ABSENT", "ERR", "OK-EQUAL"):
-                    bad.append({"writer": "big" if big else "mem", "delay_s": round(delay, 4), "verdict": v[:400]})
+                    bad.append({"writer": "big" if big else "mem", "delay_s": round(delay, 4), "tmpdir_on_other_filesystem": "TMPDIR" in env, "verdict": v[:400]})
             os.path.exists(out) and os.remove(out)
+    if other_tmp:
+        import shutil
+        shutil.rmtree(other_tmp, ignore_errors=True)
     return results, bad
 
 
@@ -153,7 +196,8 @@ def run(rep, scratch, tier, seed, replay=None):
     if not replay:
         kills, kbad = kill_stream(rep, scratch, rng, tier)
         for b in kbad[:2]:
-            rep.violation("monitor:sigkill", "updog create (%s) killed after %.4fs left a file that is accepted but wrong: %s" % (b["writer"], b["delay_s"], b["verdict"][:200]), b)
+            rep.violation("monitor:sigkill", "updog create (%s) killed %s left a file that is accepted but wrong, or that kills the process opening it: %s" % (
+                b["writer"], ("after %.4fs" % b["delay_s"]) if b["delay_s"] >= 0 else ("when its output had reached %d bytes" % -b["delay_s"]), b["verdict"][:200]), b)
     ncommit = {cid: int(h[3]) for cid, h in heads.items()}
     rep.coverage.update({
         "evaluations": len(snaps), "distinct_nontrivial": sum(1 for f in snaps if f[3] not in ("created",) and f[5].startswith("ERR")),
